@@ -212,6 +212,23 @@ class StereoCondensedReactionGraph(StereoMolGraph, CondensedReactionGraph):
             if not self._bond_stereo_change[bond]:
                 del self._bond_stereo_change[bond]
 
+    def remove_atom(self, atom: AtomId):
+        """Removes an atom from the graph together with its bonds, the stereo
+        descriptors and the descriptors inside stereo changes that mention it
+
+        :param atom: Atom
+        """
+        if atom not in self._atom_attrs:
+            raise KeyError(atom)
+        for table in (self._atom_stereo_change, self._bond_stereo_change):
+            for key, change_dict in list(table.items()):
+                for change, stereo in list(change_dict.items()):
+                    if stereo is not None and atom in stereo.atoms:
+                        del change_dict[change]
+                if not change_dict:
+                    del table[key]
+        super().remove_atom(atom)
+
     def active_atoms(self, additional_layer: int = 0) -> set[AtomId]:
         """
         Atoms involved in the reaction with additional layers of atoms
